@@ -31,6 +31,9 @@ def run(repo, run, tier):
     preloop_store(repo, run)
     guard(repo, run)
     setter_keeps_magnitude(repo, run)
+    # the step a system takes is ITS OWN object: orientation rebinds `-self.__dt` (an in-place `*= -1` writes into an array another system built from the same dt shares)
+    from .c03 import orientation_preserves_magnitude
+    orientation_preserves_magnitude(repo, run, IntegrateModel(repo), rule_id="C04.9")
 
 
 def kind_rules(repo, run, rid="C04.1"):
@@ -238,6 +241,15 @@ def setter_keeps_magnitude(repo, run):
     p = [a.arg for a in fn.args.args][1]
     stores = [st for st in walk_no_nested(fn) if isinstance(st, (ast.Assign, ast.AugAssign)) and any(
         is_self_attr(t, "__dt") for t in (st.targets if isinstance(st, ast.Assign) else [st.target]))]
+    item_stores = [st for st in walk_no_nested(fn) if isinstance(st, (ast.Assign, ast.AugAssign)) and any(
+        isinstance(t, ast.Subscript) and is_self_attr(t.value, "__dt") for t in (st.targets if isinstance(st, ast.Assign) else [st.target]))]
+    for st in item_stores:
+        run.judged(rid, "dt setter: `%s`" % src(st)[:80], ok=False)
+        run.report("C04.8", DS, st, "the dt setter writes INTO the existing step array (`%s`) instead of binding a new one: the constructor's asarray(dt) does not copy a 0-d array of the "
+                   "system's dtype, so two systems built from one dt object share that array, and every step-size change of one (each adaptive step, the halving for a short "
+                   "span) silently changes the step the other -- a fixed-step run -- takes" % src(st)[:50])
+    if not stores and item_stores:
+        return
     if not stores:
         raise AnalysisError("dt setter: no store to the step found")
     # the setter is also how integrate() stores the step it is working with, on every iteration: it must write nothing else (the value reset() restores, settings...)
